@@ -540,7 +540,7 @@ def _decode_loop_spec(ctx, fjref, v, img, st):
 @unit(name='FileJournal.reopen', relpath=JMOD, qual=['FileJournal.__init__'], props=['C08', 'C06'],
       kind='region of FileJournal.__init__: the decode loop and the assignments after ResizableFile/MetaStorer are constructed',
       doc='O8.2: reopening any file satisfying Rep yields journal == decode(F) and currentOffset == H',
-      assumptions=['A-RANGE'], trusted=['T-STRUCT', 'T-MMAP', 'ResizableFile.__init__ / MetaStorer.getMeta (file opening) not under contract'],
+      assumptions=['A-RANGE'], trusted=['T-STRUCT', 'T-MMAP', 'ResizableFile.__init__ by its contract (unit ResizableFile.open); MetaStorer.getMeta by unit MetaStorer.storeMeta'],
       canaries=[('loop-le', lambda mod: mutate_function(mod, 'FileJournal.__init__', lambda fn: replace_compare(fn, lambda n: True, ast.Lt, ast.LtE, 0)),
                  ['O8.2.decode-loop'])])
 def fj_reopen(ctx):
@@ -809,3 +809,150 @@ def _mut_meta_in_place(fn):
             n.args[0] = n.args[0].left
             cnt += 1
     return cnt
+
+
+# ------------------------------------------------------------------------------------------------ ResizableFile.__init__: creation is kill-safe
+class Disk(object):
+    """the journal file on disk: exists, byte function, size; a snapshot after every primitive operation (the states a kill leaves);
+    a buffered write reaches the file as a prefix (torn write) or completely (T-FS)"""
+
+    def __init__(self, exists, arr=None, size=0):
+        self.exists, self.arr, self.size = exists, arr, size
+        self.states = [self.snap('start')]
+
+    def snap(self, what):
+        return dict(what=what, exists=self.exists, arr=self.arr, size=self.size)
+
+    def record(self, what):
+        self.states.append(self.snap(what))
+
+
+class DiskFile(object):
+    def __init__(self, disk, mode):
+        self.disk, self.mode = disk, mode
+
+    def call_method(self, I, ref, name, args, kw):
+        d = self.disk
+        ctx = I.ctx
+        if name == 'write':
+            b = to_bytestr(args[0])
+            if b is None:
+                raise Undecided('write of non-bytes')
+            if 'w' in self.mode:
+                # torn write: only the first k bytes reach the file before a kill
+                k = FreshInt('tornAt')
+                ctx.assume(And(k >= 0, k <= to_z3(b.n)))
+                d.arr, d.size = (lambda i, b=b: b.at(to_z3(i))), k
+                d.record('torn-write')
+                d.size = b.n
+                d.record('write')
+                return None
+            raise Undecided('write in mode %r' % self.mode)
+        if name == 'fileno':
+            return ('fileno', d)
+        if name in ('flush', 'close', '__enter__', '__exit__'):
+            return ref if name == '__enter__' else None
+        return NotImplemented
+
+
+def disk_externals(ctx, d):
+    def _open(I, a, k):
+        mode = a[1] if len(a) > 1 else 'r'
+        if 'w' in mode:
+            d.exists, d.arr, d.size = True, (lambda i: z3.IntVal(0)), 0
+            d.record('created-empty')
+        elif not d.exists:
+            I.raise_('FileNotFoundError')
+        return ctx.alloc(DiskFile(d, mode))
+
+    def _mmap(I, a, k):
+        # mmap.mmap(fileno, 0) maps the whole file and refuses an empty one ("cannot mmap an empty file")
+        sz = d.size
+        empty = Eq(sz, 0)
+        if (ctx.decide(empty, 'mmap-of-empty-file') if is_sym(empty) else empty):
+            I.raise_('ValueError', 'cannot mmap an empty file')
+        return ctx.alloc(BImg((lambda i, arr=d.arr: arr(to_z3(i))), sz))
+    return {'open': _open, 'os.path.exists': lambda I, a, k: d.exists, 'mmap.mmap': _mmap,
+            'os.path.getsize': lambda I, a, k: d.size, 'os.path.isfile': lambda I, a, k: d.exists,
+            'os.stat': lambda I, a, k: ctx.alloc(PObj('stat_result', {'st_size': d.size}))}
+
+
+def run_rf_init(ctx, d, hdr, initial=1024):
+    mod = source.load(JMOD)
+    fn, ci = mod.find('ResizableFile.__init__')
+    rf = ctx.alloc(PObj('ResizableFile', {}))
+    I = Interp(ctx, registry={'ResizableFile.__extand': extand_trusted}, externals=disk_externals(ctx, d))
+    try:
+        I.call_funcdef(fn, mod, 'ResizableFile', rf, ['journal.bin'], {'initialSize': initial, 'defaultContent': hdr}, None, 'ResizableFile.__init__')
+        return 'ok', rf, I
+    except PyExc as e:
+        return e.typ, e, I
+
+
+@unit(name='ResizableFile.open', relpath=JMOD, qual=['ResizableFile.__init__'], props=['C08', 'C06'],
+      cases=[dict(phase='create'), dict(phase='restart-after-kill')],
+      doc='O8.10: creating the journal file maps the default header zero-extended to at least the initial size; and from every state a kill '
+          'during that creation can leave on disk (no file, empty file, any prefix of the header, the whole header) opening it again succeeds and '
+          'maps those bytes zero-extended - so the last-record offset read from it is 0 or FIRST_RECORD_OFFSET and the journal reopens empty '
+          '(nothing had been stored yet)',
+      trusted=['T-FS: open("wb") creates an empty file, a buffered write reaches the disk as a prefix or completely', 'T-MMAP: mmap of an empty file raises ValueError; resize zero-fills',
+               'ResizableFile.__extand by T-MMAP'])
+def rfile_open(ctx, phase):
+    n = 40
+    hf = z3.Function(fresh_name('hdr'), I_, I_)
+    hdr = ByteStr(n, (lambda i: hf(to_z3(i))))
+    # the default header ends with pack('<I', FIRST_RECORD_OFFSET) (FileJournal.__getDefaultHeader: clause O8.10.header-ends-with-first-record-offset)
+    # T-STRUCT instances: pack('<I', 40) == b'\x28\0\0\0'; unpack('<I') of b'\0\0\0\0' is 0 and of b'\x28\0\0\0' is 40
+    for k in range(4):
+        ctx.assume(hf(36 + k) == (HDR if k == 0 else 0))
+    ctx.assume(And(U32(*[z3.IntVal(0)] * 4) == 0, U32(z3.IntVal(HDR), *[z3.IntVal(0)] * 3) == HDR))
+    j = FreshInt('j')
+    if phase == 'create':
+        d = Disk(False)
+        outcome, rf, I = run_rf_init(ctx, d, hdr)
+        ctx.prove(outcome == 'ok', 'C08+C06:O8.10.create.no-exception', info=outcome)
+        if outcome != 'ok':
+            return
+        mm = ctx.cell(ctx.cell(rf).fields[RF('mm')])
+        ctx.prove(to_z3(mm.size) >= 1024, 'C08:O8.10.create.mapping-at-least-initial-size')
+        ctx.prove(Implies(And(j >= 0, j < to_z3(mm.size)), mm.arr(j) == z3.If(j < n, hf(j), 0)), 'C08+C06:O8.10.create.mapping-is-header-then-zeros')
+        ctx.ghost['disk_states'] = d.states
+        ctx.prove(all(s['what'] in ('start', 'created-empty', 'torn-write', 'write') for s in d.states) and len(d.states) >= 3,
+                  'C08:O8.10.create.kill-states-are-prefixes-of-the-header', info=repr([s['what'] for s in d.states]))
+        return
+    # restart from an arbitrary state a kill during creation leaves: the file exists and holds the first k bytes of the header, 0 <= k <= 40
+    # (the no-file state is the 'create' case itself)
+    k = FreshInt('headerBytesOnDisk')
+    ctx.assume(And(k >= 0, k <= n))
+    ctx.track('header bytes on disk', k)
+    d = Disk(True, (lambda i: hf(to_z3(i))), k)
+    outcome, rf, I = run_rf_init(ctx, d, hdr)
+    ctx.prove(outcome == 'ok', 'C08+C06:O8.10.restart-after-kill-during-creation-opens', info=outcome)
+    if outcome != 'ok':
+        return
+    mm = ctx.cell(ctx.cell(rf).fields[RF('mm')])
+    ctx.prove(to_z3(mm.size) >= 1024, 'C08:O8.10.restart.mapping-at-least-initial-size')
+    # the last-record-offset field holds pack(0) or pack(FIRST_RECORD_OFFSET): the decode loop of FileJournal.__init__ does not run
+    b = [mm.arr(z3.IntVal(HOFF + q)) for q in range(4)]
+    ctx.prove(And(Or(b[0] == 0, b[0] == HDR), b[1] == 0, b[2] == 0, b[3] == 0), 'C08+C06:O8.10.restart.offset-field-is-zero-or-first-record-offset')
+    # ... and the real decode region of FileJournal.__init__ on this mapping yields the empty journal with currentOffset at the first record
+    mod = source.load(JMOD)
+    fn, ci = mod.find('FileJournal.__init__')
+    start = [i for i, st in enumerate(fn.body) if isinstance(st, ast.Assign) and isinstance(st.targets[0], ast.Name) and st.targets[0].id == 'currentOffset']
+    if not start:
+        raise Undecided('decode region of FileJournal.__init__ not located')
+    fj = ctx.alloc(PObj('FileJournal', {FJ('journalFile'): rf, FJ('journal'): ctx.alloc(PList([])), FJ('currentOffset'): None}))
+    I2 = Interp(ctx, registry=JREG, externals=JEXT, inline={'FileJournal.__getLastRecordOffset'})
+    fr = Frame(mod, 'FileJournal', 'FileJournal.__init__')
+    fr.locals['self'] = fj
+    try:
+        I2.exec_block(fn.body[start[0]:], fr)
+        out2 = 'ok'
+    except PyExc as e:
+        out2 = e.typ
+    ctx.prove(out2 == 'ok', 'C08+C06:O8.10.restart.decode-no-exception', info=out2)
+    if out2 == 'ok':
+        c = ctx.cell(fj)
+        jl = ctx.cell(c.fields[FJ('journal')])
+        ctx.prove(isinstance(jl, PList) and len(jl.items) == 0, 'C08+C06:O8.10.restart.journal-reopens-empty')
+        ctx.prove(Eq(c.fields[FJ('currentOffset')], HDR), 'C08+C06:O8.10.restart.appends-start-at-the-first-record-offset')
